@@ -13,3 +13,6 @@ import SonicSpec.Props.C10
 import SonicSpec.Model.StrUtf8
 import SonicSpec.Model.StrHtml
 import SonicSpec.Model.StrSpec
+import SonicSpec.Props.C06
+import SonicSpec.Props.C05
+import SonicSpec.Props.C13
